@@ -36,7 +36,7 @@ func TestC02_Mgrx(t *testing.T) {
 		ending := rapid.SampledFrom([]string{"cancel", "fail", "complete"}).Draw(t, "ending")
 		switch ending {
 		case "cancel":
-			_ = r.mgr.CloseDataTransferChannel(bg(), c.chid)
+			_ = r.closeCh(c.chid)
 		case "fail":
 			_ = r.mgr.(closer).CloseDataTransferChannelWithError(bg(), c.chid, errors.New("boom"))
 		case "complete":
@@ -78,7 +78,7 @@ func TestC02_Mgrx(t *testing.T) {
 					r.restartProcess([]datatransfer.TypeIdentifier{"T/a"})
 					restarted = true
 				case "api-close":
-					err = r.mgr.CloseDataTransferChannel(bg(), c.chid)
+					err = r.closeCh(c.chid)
 					if err != nil {
 						mfail(t, log, "C02/close-terminated-error", "CloseDataTransferChannel on a terminated channel returned %v", err)
 					}
